@@ -56,6 +56,9 @@ func Generate(r *rand.Rand, profile string) *Scenario {
 	if profile == "npfs" {
 		return generateNpFs(r)
 	}
+	if profile == "abandon" {
+		return generateAbandon(r)
+	}
 	if profile == "bindfail" || profile == "overhead" || profile == "nested" || profile == "sharers" || profile == "elasticnom" {
 		return generateTight(r, profile)
 	}
@@ -1836,6 +1839,127 @@ func generateNpFs(r *rand.Rand) *Scenario {
 	}
 	if chance(0.3) {
 		add(qb, 1, 0)
+	}
+	sc.Normalize()
+	return sc
+}
+
+
+// generateAbandon: the solver's node-by-node attempts. Running gangs with one pod on each of several nodes next to
+// single-pod jobs that fill the nodes (all of an over-quota queue, or of lower priority), and a claimant that needs
+// most of ONE node: when a spread gang is the latest potential victim the solver tries the gang's nodes one after
+// the other and abandons (rolls back) the attempts that do not make room. No limits anywhere, so every eviction
+// has to be explained by room on a node.
+func generateAbandon(r *rand.Rand) *Scenario {
+	pick := func(vs ...int) int { return vs[r.Intn(len(vs))] }
+	sc := &Scenario{Class: "abandon"}
+	sc.Cfg = Cfg{Placement: []string{"binpack", "spread"}[r.Intn(2)], Consolidation: 0, Signatures: pick(0, 1),
+		ConsReclaim: 0, SatMult: 1000, Cycles: pick(1, 2, 3), Env: "closed", FullHier: 1}
+	nn := pick(2, 2, 3)
+	gpus := make([]int, nn)
+	for i := 0; i < nn; i++ {
+		gpus[i] = pick(2, 3, 3, 4, 5)
+	}
+	// often exactly one biggest node: only there a claimant that needs a whole node fits
+	big := -1
+	if r.Intn(3) > 0 {
+		big = r.Intn(nn)
+		for i := range gpus {
+			if i != big && gpus[i] >= gpus[big] {
+				gpus[i] = gpus[big] - 1
+			}
+			if gpus[i] < 2 {
+				gpus[i], gpus[big] = 2, 3
+			}
+		}
+	}
+	for i := 0; i < nn; i++ {
+		sc.Nodes = append(sc.Nodes, Node{Name: fmt.Sprintf("n%d", i+1), Cpu: 32000, Mem: 64000, Pods: 110, Gpus: gpus[i], GpuMem: 40000, Ready: 1})
+	}
+	sc.Queues = []Queue{{Name: "d1", Parent: 0, Prio: 100, GQ: -1, GL: -1, GW: 1, CQ: -1, CL: -1, MQ: -1, ML: -1},
+		{Name: "q1", Parent: 1, Prio: 100, GQ: pick(0, 1, 1, 2) * 1000, GL: -1, GW: 1, CQ: -1, CL: -1, MQ: -1, ML: -1},
+		{Name: "q2", Parent: 1, Prio: 100, GQ: pick(3, 4, 6) * 1000, GL: -1, GW: pick(1, 3), CQ: -1, CL: -1, MQ: -1, ML: -1}}
+	free := append([]int{}, gpus...)
+	k := 0
+	job := func(queue, prio, min int, age int) int {
+		k++
+		sc.Jobs = append(sc.Jobs, Job{Name: fmt.Sprintf("j%d", k), Queue: queue, Prio: prio, Preempt: 1, Min: min, Age: age, LastStart: 36000})
+		return k
+	}
+	pod := func(j, size, node int) {
+		phase := "P"
+		if node > 0 {
+			phase = "R"
+		}
+		n := 0
+		for _, p := range sc.Pods {
+			if p.Job == j {
+				n++
+			}
+		}
+		sc.Pods = append(sc.Pods, Pod{Name: fmt.Sprintf("j%d-p%d", j, n+1), Job: j, Cpu: 500, Mem: 500, Gpu: size, Phase: phase, Node: node})
+	}
+	// one or two spread gangs (one pod per node, sometimes not on every node), older or younger than the rest
+	for gi := 0; gi < pick(1, 1, 2); gi++ {
+		var on []int
+		for ni := 0; ni < nn; ni++ {
+			if free[ni] > 1 && (nn == 2 || r.Intn(4) > 0) {
+				on = append(on, ni)
+			}
+		}
+		if len(on) < 2 {
+			continue
+		}
+		min := len(on)
+		if r.Intn(4) == 0 {
+			min = 1
+		}
+		j := job(2, 50, min, pick(600, 7200, 7200, 9000)+60*r.Intn(10))
+		for _, ni := range on {
+			pod(j, 1, ni+1)
+			free[ni]--
+		}
+	}
+	// single-pod jobs fill the nodes (sometimes one GPU stays idle on one node)
+	idleOn := -1
+	if r.Intn(3) == 0 {
+		idleOn = r.Intn(nn)
+	}
+	for ni := 0; ni < nn; ni++ {
+		leave := 0
+		if ni == idleOn {
+			leave = 1
+		}
+		for free[ni] > leave {
+			size := pick(1, 1, 1, 2)
+			if ni == big {
+				// bigger pods on the biggest node: evicted there, they do not fit into the room that opens elsewhere
+				size = pick(1, 2, 2, 3)
+			}
+			if size > free[ni]-leave {
+				size = free[ni] - leave
+			}
+			j := job(2, pick(50, 50, 75), 1, 1200+60*r.Intn(60))
+			pod(j, size, ni+1)
+			free[ni] -= size
+		}
+	}
+	// claimants: need (nearly) a whole node; from the deserving queue (reclaim) or of higher priority in the same queue (preempt)
+	for i := 0; i < pick(1, 1, 2); i++ {
+		size := gpus[r.Intn(nn)] - pick(0, 0, 1)
+		if big >= 0 && r.Intn(4) > 0 {
+			size = gpus[big]
+		}
+		if size < 1 {
+			size = 1
+		}
+		q, prio := 3, pick(50, 75)
+		if r.Intn(3) == 0 {
+			q, prio = 2, 100
+		}
+		k++
+		sc.Jobs = append(sc.Jobs, Job{Name: fmt.Sprintf("j%d", k), Queue: q, Prio: prio, Preempt: 1, Min: 1, Age: 300 + 60*r.Intn(10), LastStart: -1})
+		sc.Pods = append(sc.Pods, Pod{Name: fmt.Sprintf("j%d-p1", k), Job: k, Cpu: 500, Mem: 500, Gpu: size, Phase: "P", Node: 0})
 	}
 	sc.Normalize()
 	return sc
